@@ -14,6 +14,7 @@ from .values import SymBytes, SymByteArray, fresh_bytes, fresh_int, fresh_bool, 
 from .containers import SDict, SDeque, SSet
 
 VERIF = os.path.dirname(os.path.dirname(os.path.abspath(__file__)))
+EVDIR = os.environ.get('VERIF_EVIDENCE') or os.path.join(VERIF, 'evidence')
 
 _PKG = {}
 
@@ -716,8 +717,8 @@ class CheckRunner:
         for label in need:
             if not reached.get(label):
                 errors.append(f'vacuity: reachability marker {label!r} never reached')
-        os.makedirs(os.path.join(VERIF, 'evidence', 'replay'), exist_ok=True)
-        stale = os.path.join(VERIF, 'evidence', f'{self.pid}.nonrepro.json')
+        os.makedirs(os.path.join(EVDIR, 'replay'), exist_ok=True)
+        stale = os.path.join(EVDIR, f'{self.pid}.nonrepro.json')
         if os.path.exists(stale):
             os.remove(stale)
         printed = set()
@@ -732,7 +733,7 @@ class CheckRunner:
             if key in seen_sigs and i >= 3:
                 continue
             seen_sigs.add(key)
-            path = os.path.join(VERIF, 'evidence', 'replay', f'{self.pid}-{len(replay_paths)}.json')
+            path = os.path.join(EVDIR, 'replay', f'{self.pid}-{len(replay_paths)}.json')
             json.dump({'property': self.pid, **v}, open(path, 'w'), indent=1)
             replay_paths.append(path)
             print(f'VIOLATION property={self.pid} replay={path}')
@@ -741,7 +742,7 @@ class CheckRunner:
             print(f"  replay={json.dumps(v.get('replay'))[:700]}")
             status = 1
         if nonrepro:
-            path = os.path.join(VERIF, 'evidence', f'{self.pid}.nonrepro.json')
+            path = os.path.join(EVDIR, f'{self.pid}.nonrepro.json')
             json.dump(nonrepro[:20], open(path, 'w'), indent=1)
             for v in nonrepro[:5]:
                 errors.append(f"counterexample did not reproduce on the real code (harness error, not a "
@@ -777,8 +778,8 @@ class CheckRunner:
             'wall_s': round(wall, 2),
             'violations': len(viol_new),
         }
-        os.makedirs(os.path.join(VERIF, 'evidence'), exist_ok=True)
-        json.dump(ev, open(os.path.join(VERIF, 'evidence', f'{self.pid}.json'), 'w'), indent=1)
+        os.makedirs(os.path.join(EVDIR), exist_ok=True)
+        json.dump(ev, open(os.path.join(EVDIR, f'{self.pid}.json'), 'w'), indent=1)
         if errors:
             for er in errors[:12]:
                 print('HARNESS-ERROR:', er, file=sys.stderr)
